@@ -16,6 +16,7 @@ import MesonModel.Ninja.GraphLemmas
 import MesonModel.Ninja.EmitLemmas
 import MesonModel.Ninja.Manifest
 import MesonModel.Ninja.ManifestLemmas
+import MesonModel.Ninja.EndingLemmas
 
 namespace MesonModel.Props.C04
 open MesonModel.Ninja
@@ -34,6 +35,20 @@ theorem wellFormed_sound_complete (g : Graph α) (fs : List α) (reqs : List (α
 theorem checker_decides_manifest (m : Manifest) (fs : List String) (reqs : List (String × String)) :
     wellFormed m.graph fs reqs = true ↔ WellFormed m.graph fs reqs :=
   wellFormed_iff m.graph fs reqs
+
+/-- The checker with the install clause accepts exactly the graphs that are well-formed and in which every file the
+install step copies unconditionally is brought up to date by the `install` target (or, when no statement produces it,
+exists). -/
+theorem wellFormedInst_sound_complete (g : Graph α) (fs : List α) (reqs : List (α × α)) (iroot : α) (inst : List α) :
+    wellFormedInst g fs reqs iroot inst = true ↔ WellFormedInst g fs reqs iroot inst :=
+  wellFormedInst_iff g fs reqs iroot inst
+
+/-- clause 8 alone -/
+theorem install_clause (fs : List α) (es : List (Edge α)) (iroot : α) (inst : List α) :
+    installB fs es iroot inst = true ↔
+      (∀ f ∈ inst, (∃ e ∈ es, f ∈ e.outs) → Star (Need es) iroot f) ∧
+      (∀ f ∈ inst, (¬ ∃ e ∈ es, f ∈ e.outs) → f ∈ fs) :=
+  installB_iff fs es iroot inst
 
 /-- clause 1: every statement's rule is `phony` or defined -/
 theorem rules_clause (g : Graph α) :
@@ -336,5 +351,105 @@ example :
        [(["a.o".toList], "CC".toList, []), (["b.o".toList], "CC_RSP".toList, ["y".toList, "z".toList]),
         (["all".toList], phony, [])]) := by
   decide
+
+/-! ## (d) the aggregate targets `all`, `meson-test-prereq`, `meson-benchmark-prereq`, `install` — for every target table
+
+`Ending.lean` models how `build_by_default` is computed by the target constructors, `get_build_by_default_targets`,
+`get_testlike_targets`, the phony statements of `generate_ending` and the `install` statement of `generate_install`.
+`es` below is any statement list that contains what those emitters write; `Produces es t` says that the statement
+written for the target itself has all of the target's outputs among its outputs (that emitter is not modelled: the
+hypothesis is checked per project by the verified checker, clause 5). -/
+
+section ending
+open MesonModel.Ninja.Ending
+
+/-- the attribute the backend reads is the documented rule: build targets default to built-by-default and an installed
+build target is built by default whatever `build_by_default:` says; for `custom_target()` an explicit keyword decides,
+otherwise `install:`, otherwise the deprecated `build_always:`, otherwise false -/
+theorem built_by_default_is_documented_rule (t : Target) : t.buildByDefault = true ↔ DocBuiltByDefault t :=
+  buildByDefault_iff_doc t
+
+/-- `get_testlike_targets` yields exactly the targets a test runs or depends on (program, arguments — also through a
+`find_program` override or as an output index — and `depends:`) -/
+theorem testlike_sound_complete (tests : List Test) (t : Target) : t ∈ testlike tests ↔ ∃ x ∈ tests, Uses x t :=
+  mem_testlike_iff tests t
+
+/-- every output of every target that is built by default (documented rule) is reachable from `all` -/
+theorem all_reaches_default_targets (tbl : List Target) (tests benches : List Test) (es : List (Edge Str))
+    (h : ∀ e ∈ endingEdges tbl tests benches, e ∈ es) (t : Target) (ht : t ∈ tbl) (hd : DocBuiltByDefault t)
+    (hp : Produces es t) (p : Str) (hpp : p ∈ t.paths) : Star (Need es) allName p :=
+  aggregate_reaches (ts := buildByDefaultTargets tbl) (h _ (allEdge_mem tbl tests benches))
+    (List.mem_filter.2 ⟨ht, (buildByDefault_iff_doc t).2 hd⟩) hp hpp
+
+/-- every output of every target a test runs or depends on is reachable from `meson-test-prereq` -/
+theorem test_prereq_reaches_used_targets (tbl : List Target) (tests benches : List Test) (es : List (Edge Str))
+    (h : ∀ e ∈ endingEdges tbl tests benches, e ∈ es) (x : Test) (hx : x ∈ tests) (t : Target) (hu : Uses x t)
+    (hp : Produces es t) (p : Str) (hpp : p ∈ t.paths) : Star (Need es) testPrereqName p :=
+  aggregate_reaches (h _ (testEdge_mem tbl tests benches)) ((mem_testlike_iff tests t).2 ⟨x, hx, hu⟩) hp hpp
+
+/-- … and the same for benchmarks and `meson-benchmark-prereq` -/
+theorem benchmark_prereq_reaches_used_targets (tbl : List Target) (tests benches : List Test) (es : List (Edge Str))
+    (h : ∀ e ∈ endingEdges tbl tests benches, e ∈ es) (x : Test) (hx : x ∈ benches) (t : Target) (hu : Uses x t)
+    (hp : Produces es t) (p : Str) (hpp : p ∈ t.paths) : Star (Need es) benchPrereqName p :=
+  aggregate_reaches (h _ (benchEdge_mem tbl tests benches)) ((mem_testlike_iff benches t).2 ⟨x, hx, hu⟩) hp hpp
+
+/-- every file the install step copies unconditionally for a target is reachable from `install`
+(`install` → `meson-internal__install` → `all` → first output → sibling outputs) -/
+theorem install_reaches_mandatory_files (tbl : List Target) (tests benches : List Test) (es : List (Edge Str))
+    (h : ∀ e ∈ endingEdges tbl tests benches, e ∈ es) (hi : ∀ e ∈ installEdges, e ∈ es)
+    (t : Target) (ht : t ∈ tbl) (hp : Produces es t) (p : Str) (hpp : p ∈ mandatoryInstall t) :
+    Star (Need es) installName p :=
+  star_trans (install_reaches_all hi)
+    (aggregate_reaches (ts := buildByDefaultTargets tbl) (h _ (allEdge_mem tbl tests benches))
+      (List.mem_filter.2 ⟨ht, mandatoryInstall_builtByDefault t p hpp⟩) hp (mandatoryInstall_subset t p hpp))
+
+/-- the requirements the harness hands to the checker, as a function of the table -/
+def endingReqs (tbl : List Target) (tests benches : List Test) : List (Str × Str) :=
+  (buildByDefaultTargets tbl).flatMap (fun t => t.paths.map (fun p => (allName, p))) ++
+  (testlike tests).flatMap (fun t => t.paths.map (fun p => (testPrereqName, p))) ++
+  (testlike benches).flatMap (fun t => t.paths.map (fun p => (benchPrereqName, p)))
+
+/-- In the checker's terms: for every target table, clause 5 accepts the requirements of the table on any statement
+list holding the aggregate statements and one producing statement per target. -/
+theorem ending_satisfies_reach_clause (tbl : List Target) (tests benches : List Test) (es : List (Edge Str))
+    (h : ∀ e ∈ endingEdges tbl tests benches, e ∈ es)
+    (hp : ∀ t, t ∈ tbl ∨ t ∈ testlike tests ∨ t ∈ testlike benches → Produces es t) :
+    reqsOk es (endingReqs tbl tests benches) = true := by
+  rw [reqsOk_iff]
+  intro rt hrt
+  simp only [endingReqs, List.mem_append, List.mem_flatMap, List.mem_map] at hrt
+  rcases hrt with (⟨t, ht, p, hpp, rfl⟩ | ⟨t, ht, p, hpp, rfl⟩) | ⟨t, ht, p, hpp, rfl⟩
+  · exact aggregate_reaches (h _ (allEdge_mem tbl tests benches)) ht (hp t (.inl (List.mem_filter.1 ht).1)) hpp
+  · exact aggregate_reaches (h _ (testEdge_mem tbl tests benches)) ht (hp t (.inr (.inl ht))) hpp
+  · exact aggregate_reaches (h _ (benchEdge_mem tbl tests benches)) ht (hp t (.inr (.inr ht))) hpp
+
+/-- … and clause 8 accepts what `generate_target_install` lists as non-optional. -/
+theorem ending_satisfies_install_clause (tbl : List Target) (tests benches : List Test) (es : List (Edge Str))
+    (fs : List Str) (h : ∀ e ∈ endingEdges tbl tests benches, e ∈ es) (hi : ∀ e ∈ installEdges, e ∈ es)
+    (hp : ∀ t ∈ tbl, Produces es t) :
+    installB fs es installName (tbl.flatMap mandatoryInstall) = true := by
+  rw [installB_iff]
+  refine ⟨fun f hf _ => ?_, fun f hf hnp => ?_⟩
+  · obtain ⟨t, ht, hft⟩ := List.mem_flatMap.1 hf
+    exact install_reaches_mandatory_files tbl tests benches es h hi t ht (hp t ht) f hft
+  · obtain ⟨t, ht, hft⟩ := List.mem_flatMap.1 hf
+    obtain ⟨e, he, hall⟩ := hp t ht
+    exact absurd ⟨e, he, hall f (mandatoryInstall_subset t f hft)⟩ hnp
+
+/-- non-vacuity: the combination `install: true` + `build_by_default: false` on a build target is built by default and
+listed in `all`; on a custom target it is not, and its install entry is optional -/
+def exTool : Target := { kind := .build, dir := [], out0 := "tool".toList, bbdKw := some false, install := true }
+def exGen : Target := { kind := .custom, dir := "sub".toList, out0 := "g.h".toList, outRest := ["g.c".toList],
+                        bbdKw := some false, install := true, instMask := [true, false] }
+def exDoc : Target := { exGen with bbdKw := none }
+
+example : exTool.buildByDefault = true ∧ exGen.buildByDefault = false ∧ exDoc.buildByDefault = true := by decide
+example : (endingEdges [exTool, exGen, exDoc] [{ exe := .localTarget exGen, args := [.index exDoc, .other] }] []).map (·.ins)
+    = [["tool".toList, "sub/g.h".toList], ["sub/g.h".toList, "sub/g.h".toList], []] := by decide
+example : mandatoryInstall exTool = ["tool".toList] ∧ mandatoryInstall exGen = [] ∧ optionalInstall exGen = ["sub/g.h".toList]
+    ∧ mandatoryInstall exDoc = ["sub/g.h".toList] := by decide
+example : Produces [{ rule := customCommand, outs := exGen.paths, ins := [] }] exGen := ⟨_, List.mem_singleton.2 rfl, fun _ h => h⟩
+
+end ending
 
 end MesonModel.Props.C04
